@@ -293,7 +293,7 @@ Qed.
 
 Theorem protectedb_sound : forall t, protectedb t = true -> protected t.
 Proof.
-  unfold protectedb, protected. intros t H r I.
+  unfold protectedb, row_okb, protected. intros t H r I.
   rewrite forallb_forall in H. specialize (H r I). apply existsb_exists in H.
   destruct H as [[l m] [_ F]]. simpl in F. exists l. intros r' I' E.
   rewrite forallb_forall in F. apply F. unfold rows_of. apply filter_In. split; auto.
